@@ -31,6 +31,22 @@ def one_per_pattern(fns):
     return out
 
 
+def every_instance(fns):
+    """all distinct instantiations (a template member can diverge per instantiation, e.g. on sizeof...(Args))"""
+    seen = set()
+    out = []
+    for f in fns:
+        k = (f['file'], f['pat']['l'], f.get('rec'), tuple(f.get('targs') or ()), tuple(p['t'] for p in f['params']))
+        if k not in seen:
+            seen.add(k)
+            out.append(f)
+    return out
+
+
+def inst_tag(f):
+    return ' <%s>' % ', '.join(x[:40] for x in (f.get('targs') or [])) if f.get('targs') is not None else ''
+
+
 def dispatch_table(chk, db, rule):
     fns = [f for f in db.fns if f.get('rect') == 'nop::InterfaceBindings' and f['n'] == 'operator()' and 'body' in f]
     by_count = {}
@@ -180,8 +196,8 @@ def helper_call(chk, db, rule):
 
 def sender(chk, db, rule):
     fns = [f for f in db.fns if f.get('rect') == 'nop::SimpleMethodSender' and 'body' in f]
-    for f in one_per_pattern([g for g in fns if g['n'] == 'SendMethod']):
-        where = facts.site(f)
+    for f in every_instance([g for g in fns if g['n'] == 'SendMethod']):
+        where = facts.site(f) + inst_tag(f)
         paths = symx.paths_of(db, f, lambda c, e: False)
         why = []
         full = [p for p in paths if all(p.status_facts().values())]
@@ -200,8 +216,8 @@ def sender(chk, db, rule):
                 why.append('successful path performs %s' % [(s[1], s[2]) for s in seq])
         chk.decide(not why, rule, where, 'SendMethod: %s' % ('; '.join(sorted(set(why))) if why else 'selector, argument tuple, GetReturn; failures stored and final'),
                    function=ir.fn_label(f))
-    for f in one_per_pattern([g for g in fns if g['n'] == 'GetReturn']):
-        where = facts.site(f)
+    for f in every_instance([g for g in fns if g['n'] == 'GetReturn']):
+        where = facts.site(f) + inst_tag(f)
         paths = symx.paths_of(db, f, lambda c, e: False)
         why = []
         if f['params'][0]['t'].startswith('nop::Status<void>'):
@@ -211,14 +227,17 @@ def sender(chk, db, rule):
         else:
             for p in paths:
                 ev = [e for e in p.events if e.kind == 'call']
-                if not ev or ev[0].obj != 'f:deserializer_' or ev[0].name != 'Read':
+                io = [e for e in ev if e.obj.startswith('f:')]
+                if len(io) != 1 or io[0].obj != 'f:deserializer_' or io[0].name != 'Read':
                     why.append('return value is not decoded through the deserializer')
                     continue
                 stores = [e for e in ev if e.name == 'operator=']
-                if p.status_facts().get(0) is False:
-                    if not stores or 'error_of(status#0)' not in repr(stores[-1].args):
+                k = p.events.index(io[0])
+                dest = repr(io[0].args[0]).lstrip('&')          # the local the reply is decoded into
+                if p.status_facts().get(k) is False:
+                    if not stores or 'error_of(status#%d)' % k not in repr(stores[-1].args):
                         why.append('decode failure not stored')
-                elif not stores or 'd:return_value#0' not in repr(stores[-1].args):
+                elif not stores or 'd:%s#%d' % (dest.split(':', 1)[-1], k) not in repr(stores[-1].args):
                     why.append('decoded value not stored')
         chk.decide(not why, rule, where, 'GetReturn: %s' % ('; '.join(sorted(set(why))) if why else 'decode, store value or error'), function=ir.fn_label(f))
 
@@ -227,7 +246,7 @@ def receiver(chk, db, rule):
     fns = [f for f in db.fns if f.get('rect') == 'nop::SimpleMethodReceiver' and 'body' in f and f['n'] in ('GetMethodSelector', 'GetArgs', 'SendReturn')]
     want = {'GetMethodSelector': ('f:deserializer_', 'Read'), 'GetArgs': ('f:deserializer_', 'Read'), 'SendReturn': ('f:serializer_', 'Write')}
     names = set()
-    for f in one_per_pattern(fns):
+    for f in every_instance(fns):
         where = facts.site(f)
         names.add(f['n'])
         paths = symx.paths_of(db, f, lambda c, e: False)
